@@ -657,10 +657,14 @@ func (index *setIndex) CheckIntegrity(ctx MutateContext, fix bool, errorSink fun
 					}
 				}
 			} else {
-				// If key has no values, delete the key
-				if err := cursor.Delete(); err != nil {
-					return err
+				// the key is a plain value instead of a bucket of ids, so it has no values: in fix mode, delete the key
+				if fix {
+					if err := cursor.Delete(); err != nil {
+						return err
+					}
 				}
+				errorSink(errors.Errorf("for index on %s.%s, index value %s is not a bucket of ids",
+					index.symbol.GetStore().GetEntityType(), index.GetSymbol().GetName(), string(key)), fix)
 			}
 		}
 
@@ -681,10 +685,18 @@ func (index *setIndex) CheckIntegrity(ctx MutateContext, fix bool, errorSink fun
 		valuesCursor := setBucket.Cursor()
 		for val, _ := valuesCursor.First(); val != nil; val, _ = valuesCursor.Next() {
 			_, value := GetTypeAndValue(val)
-			idxBucket := index.getIndexBucket(tx, value)
+			// look the index entry up without creating anything: a check-only run must leave the database unchanged
+			var idxBucket *TypedBucket
+			if indexBaseBucket := Path(tx, index.indexPath...); indexBaseBucket != nil {
+				idxBucket = indexBaseBucket.GetBucket(string(value))
+			}
 			key := PrependFieldType(TypeString, id)
-			if !idxBucket.IsKeyPresent(key) {
+			if idxBucket == nil || !idxBucket.IsKeyPresent(key) {
 				if fix {
+					idxBucket = index.getIndexBucket(tx, value)
+					if idxBucket.HasError() {
+						return idxBucket.GetError()
+					}
 					if err := idxBucket.Put(key, nil); err != nil {
 						return err
 					}
